@@ -1,6 +1,45 @@
-(* C01 — placeholder while the proofs are being written: the initial state is in sync. *)
-From GV Require Import Prelude.Base Model.Ws Model.WsCheck.
+(* C01 — Re-opening a file yields exactly the state built through the API.
+   Only statements, each closed by [exact] and followed by Print Assumptions.
+   Histories are lists of the nine model operations (Model/Ws.v) run from the empty workspace; [Reopen] = close + fresh
+   open; trees are compared up to the order of children ([tree_equiv]: HDF5 lists links by name). *)
+From GV Require Import Prelude.Base Model.Ws Model.WsSpec Proofs.WsProofs.
 
+(* PARTIAL (exact side condition: no entity is created under an identifier that still has a stale flat node):
+   after ANY such history -- including removals that raised half-way and intermediate close/re-opens -- close + open
+   succeeds and yields the live tree. *)
+Theorem C01_reopen_partial : forall ops, fresh_run ops init = true ->
+  let w := run ops init in
+  snd (step w Reopen) = Done /\ tree_equiv (wmem (fst (step w Reopen))) (wmem w).
+Proof. exact reopen_equiv. Qed.
+Print Assumptions C01_reopen_partial.
+
+(* REFUTED: the full statement is false of the faithful model: an entity re-created under the identifier of a node left
+   by a removal through the parent keeps the OLD stored node; re-opening resurrects the old name / array / children
+   (witness [ops_stale], replayed on the implementation: known finding "stale-node-reused"). *)
+Definition C01_reopen_full : Prop := C01_full.
+Theorem C01_reopen_refuted : ~ C01_reopen_full.
+Proof. exact C01_full_refuted. Qed.
+Print Assumptions C01_reopen_refuted.
+
+(* the loader: whenever the file represents tree t up to lingering orphans, loading from Root rebuilds t up to children
+   order with unique identifiers (orphans are never reached; the "already registered" test never fires) *)
+Theorem C01_load_rep : forall t f pend, Rep t f pend ->
+  exists t' sn, load (S (length (flat f))) (flat f) [] rootkey = Some (t', sn)
+     /\ tree_equiv t' t /\ NoDup (keys_of t').
+Proof. exact load_rep. Qed.
+Print Assumptions C01_load_rep.
+
+(* sanity: the initial state is in sync *)
 Theorem C01_init_reopen : fst (step init Reopen) = init.
 Proof. vm_compute. reflexivity. Qed.
 Print Assumptions C01_init_reopen.
+
+(* non-vacuity: a 14-operation history meeting the side condition with a move, a removal through the parent + sweep, a
+   removal through the workspace that raises half-way, an intermediate re-open and a complete removal; and the side
+   condition is what excludes the witness of the refutation *)
+Example C01_nonvacuous :
+  fresh_run ops_demo init = true /\
+  map (fun n => snd (step (run (firstn n ops_demo) init) (nth n ops_demo Reopen))) (seq 0 14)
+  = [Done; Done; Done; Done; Done; Done; Done; Done; Done; Done; Done; Raised; Done; Done] /\
+  fresh_run ops_stale init = false.
+Proof. split; [apply ops_demo_ok | split; [apply ops_demo_ok | exact ops_stale_not_fresh]]. Qed.
